@@ -227,6 +227,38 @@ fn lef_case(src: &mut Src, ctx: &mut Ctx) -> Result<(), String> {
 }
 
 // ---- GDSII file -> markup -> GDSII file -------------------------------------------------------------------------
+/// Files of a few hundred kilobytes made mostly of multi-byte characters, at every alignment to any block
+/// size a loader might read them in: saved and opened through each of the three API spellings, in both formats.
+fn large_file_case(src: &mut Src, ctx: &mut Ctx) -> Result<(), String> {
+    use gds21::*;
+    let i = src.u64();
+    let (fmt, fname) = fmt_of(i % 2);
+    let api = (i / 2) % 3;
+    let align = ((i / 6) % 4) as usize;
+    let unit = ["中", "é", "😀", "ж"][((i / 24) % 4) as usize];
+    let mut lib = GdsLibrary::new("big");
+    let mut st = GdsStruct::new("s");
+    for k in 0..5 {
+        // 40 000 bytes or so each, preceded by 0-3 ASCII characters (which shift every later character)
+        let body: String = std::iter::repeat(unit).take(40_000 / unit.len() + k).collect();
+        st.elems.push(GdsElement::GdsTextElem(GdsTextElem { string: format!("{}{}", "x".repeat(if k == 0 { align } else { 0 }), body), layer: k as i16, texttype: 0, xy: GdsPoint::new(k as i32, 0), ..Default::default() }));
+    }
+    lib.structs.push(st);
+    ctx.nontrivial(hash_of(&(i % 96)));
+    ctx.label(&format!("200 KB {} file of {}-byte characters", fname, unit.len()));
+    let path = scratch_path(&format!("c18.large.{}", fname));
+    let r = (|| -> Result<(), String> {
+        save_any(api, &lib, &path, fmt).map_err(|e| format!("save failed: {}", e))?;
+        let back: GdsLibrary = open_any(api, &path, fmt).map_err(|e| format!("open of the file just saved failed: {}", e))?;
+        if back != lib {
+            let (a, b) = (format!("{:?}", lib), format!("{:?}", back));
+            return Err(format!("library changed through a {} file of {} bytes; {}", fname, std::fs::metadata(&path).map(|m| m.len()).unwrap_or(0), first_diff(&a, &b)));
+        }
+        Ok(())
+    })();
+    let _ = std::fs::remove_file(&path);
+    r
+}
 fn markup_case(src: &mut Src, ctx: &mut Ctx) -> Result<(), String> {
     use layout21converters::gds_serialization::{from_markup, to_markup, FromMarkupOptions, ToMarkupOptions};
     let mut m = hostile_gds(src);
@@ -355,6 +387,7 @@ fn run(run: &mut Run) {
     run.explore("gds-markup", run.tier.pick(80_000, 800_000), 1800, &gds_case);
     run.explore("lef-markup", run.tier.pick(50_000, 500_000), 2600, &lef_case);
     run.explore("gds-file-markup-file", run.tier.pick(20_000, 200_000), 1800, &markup_case);
+    run.enumerate("large-files", 96, &large_file_case);
     run.explore("save-histories", run.tier.pick(10_000, 100_000), 4000, &overwrite_case);
     run.explore("scalars", run.tier.pick(30_000, 500_000), 120, &scalar_case);
 }
@@ -363,6 +396,7 @@ fn case(sub: &str) -> Option<Box<CaseFn<'static>>> {
         "gds-markup" => Some(Box::new(gds_case)),
         "lef-markup" => Some(Box::new(lef_case)),
         "gds-file-markup-file" => Some(Box::new(markup_case)),
+        "large-files" => Some(Box::new(large_file_case)),
         "scalars" => Some(Box::new(scalar_case)),
         "save-histories" => Some(Box::new(overwrite_case)),
         _ => None,
